@@ -6,6 +6,7 @@
 -/
 import Fc.Text
 import Fc.CoMon
+import Fc.CoVal
 
 namespace Fc
 namespace Co
@@ -101,14 +102,17 @@ def withHiddenSource (cfg : Cfg) (items : Nat) (evs : List CoEv) : List CoEv :=
       | none => (acc.reverse ++ e :: r)     -- rejected: leave the rest as it is
   go (init cfg) evs []
 
-/-- verdict line for one concurrent-stream case (events oldest first) -/
-def verdict (cfg : Cfg) (evs : List CoEv) : String :=
+/-- verdict line for one concurrent-stream case (events oldest first); `pre` = the values that exist from the
+    start (the items of a `Vec::into_co_stream()` source) -/
+def verdict (cfg : Cfg) (pre : List Nat) (evs : List CoEv) : String :=
   let t := evs.reverse
   let acc := accepts cfg t
+  let vacc := vaccepts pre t
   let k := acceptedPrefix cfg (init cfg) evs 0
   let b := fun (x : Bool) => if x then "1" else "0"
-  s!"eq={b acc} eqCO={b acc} C13={b (holds_C13 cfg t)} C14={b (holds_C14 cfg t)} C15={b (holds_C15 cfg t)}" ++
-    (if acc then "" else s!" div={k} model=[rejects] impl=[{(evs.drop k).head?.map (fun e => reprStr e) |>.getD "-"}]")
+  s!"eq={b (acc && vacc)} eqCO={b acc} eqC02={b (acc && vacc)} C13={b (holds_C13 cfg t)} C14={b (holds_C14 cfg t)} C15={b (holds_C15 cfg t)} C02={b (holds_C02co pre t)}" ++
+    (if acc then (if vacc then "" else " div=0 model=[value-ownership acceptor rejects] impl=[-]")
+     else s!" div={k} model=[rejects] impl=[{(evs.drop k).head?.map (fun e => reprStr e) |>.getD "-"}]")
 
 end Co
 end Fc
